@@ -60,6 +60,20 @@ def parseOp (st : St) : List String → Option (Op × Nat)
   | _ => none
 
 def step (st : St) (op impl : List String) : St × String × String :=
+  match op with
+  | ["stress", seed, g, n] =>
+    -- not predictable (real concurrency): the model side only says `stress`, the judge looks at the final state
+    match toNat? seed, toNat? g, toNat? n with
+    | some _, some g, some n =>
+      if 1 ≤ g ∧ g ≤ 64 ∧ 1 ≤ n ∧ n ≤ 1000 then
+        (st, "stress", if impl.isEmpty then "na" else stressVerdict impl)
+      else (st, "bad-op", "na")
+    | _, _, _ => (st, "bad-op", "na")
+  | ["janus", t] =>
+    if (parseStreamTok t).isSome then
+      (st, janusExpected, if impl.isEmpty then "na" else if joinToks impl = janusExpected then "ok" else "violated:janus-close-leaves-objects")
+    else (st, "bad-op", "na")
+  | _ =>
   match parseOp st op with
   | none => (st, "bad-op", "na")
   | some (o, label) =>
